@@ -132,6 +132,8 @@ class Evaluator:
         self.cond: tuple = ()
         self.local_defs: dict[str, FunctionInfo] = {}
         self.closure = closure or {}
+        self.fresh = None  # predicate: call term -> is a stateful fresh-value source
+        self.fresh_counter = [0]
         a = fi.node.args
         params = [x.arg for x in a.posonlyargs + a.args + a.kwonlyargs]
         if a.vararg:
@@ -308,14 +310,17 @@ class Evaluator:
 
     def _comp(self, kind, elts, generators):
         saved = dict(self.env.vars)
+        saved_cond = self.cond
         gens = []
         for gen in generators:
             it = self.expr(gen.iter)
             self.assign(gen.target, ("iter", it), gen)
+            self.cond = self.cond + ((("inloop", it), True),)
             conds = tuple(self.expr(i) for i in gen.ifs)
             gens.append((self._target_term(gen.target), it, conds))
         elt = tuple(self.expr(x) for x in elts)
         self.env.vars = saved
+        self.cond = saved_cond
         return ("comp", kind, elt if len(elt) > 1 else elt[0], tuple(gens))
 
     def _target_term(self, t) -> Term:
@@ -347,6 +352,11 @@ class Evaluator:
             else:
                 kwargs.append((kw.arg, self.expr(kw.value)))
         t = ("call", f, args, tuple(sorted(kwargs)))
+        if self.fresh is not None and self.fresh(t):
+            self.fresh_counter[0] += 1
+            t = ("fresh", self.fresh_counter[0], t)
+            self.res.calls.append((t, e, self.cond))
+            return t
         self.res.calls.append((t, e, self.cond))
         if self.inline is not None and self.inline_depth > 0:
             r = self.inline(self, t, e)
@@ -517,6 +527,7 @@ class Evaluator:
             merged.heap[k] = a if a == b else ("loop", k, b)
         self.res.loops.append({
             "node": st, "iter": it, "cond": cond, "carried": carried,
+            "before": dict(before.vars), "before_heap": dict(before.heap),
             "stores": self.res.stores[stores0:], "effects": self.res.effects[eff0:],
             "calls": self.res.calls[calls0:], "env_after_body": after,
         })
@@ -596,9 +607,10 @@ class Evaluator:
 
 
 def evaluate(repo: Repo, fi: FunctionInfo, *, inline=None, inline_depth=2,
-             bindings=None, closure=None) -> Result:
+             bindings=None, closure=None, fresh=None) -> Result:
     ev = Evaluator(repo, fi, inline=inline, inline_depth=inline_depth,
                    bindings=bindings, closure=closure)
+    ev.fresh = fresh
     return ev.run()
 
 
@@ -700,6 +712,8 @@ def make_inliner(repo: Repo, targets: dict[str, FunctionInfo] | None = None,
                         bindings=b, closure=closure)
         sub.env.heap.update(ev.env.heap)
         sub.cond = ev.cond
+        sub.fresh = ev.fresh
+        sub.fresh_counter = ev.fresh_counter
         r = sub.run()
         rt = r.ret()
         if rt is None:
@@ -845,4 +859,6 @@ def pretty(t, depth: int = 0) -> str:
         return f"{p(t[1])}:{p(t[2])}:{p(t[3])}"
     if tag == "opaque":
         return f"<{t[1]}>"
+    if tag == "fresh":
+        return f"{p(t[2])}@{t[1]}"
     return tag + "(" + ", ".join(p(x) if isinstance(x, tuple) else repr(x) for x in t[1:]) + ")"
